@@ -5,7 +5,7 @@ const path = require('path');
 const fs = require('fs');
 const os = require('os');
 const readline = require('readline');
-const { Readable, Writable } = require('stream');
+const { Readable, Writable, PassThrough } = require('stream');
 
 const REPO = process.env.VERIF_REPO || '/repo';
 const rbql = require(path.join(REPO, 'rbql-js', 'rbql.js'));
@@ -200,6 +200,34 @@ async function do_read_csv(req) {
     return await read_stream(bufs_from(req.hex, req.cuts), req);
 }
 
+async function do_read_two_streams(req) {
+    // two stream readers alive at the same time: the first pieces of A are delivered, then B is delivered and read completely,
+    // then the rest of A. Both results must equal what each stream gives on its own.
+    let pa = bufs_from(req.hex_a, req.cuts_a), pb = bufs_from(req.hex_b, req.cuts_b);
+    let sa = new PassThrough(), sb = new PassThrough();
+    let ita = new rbql_csv.CSVRecordIterator(sa, null, req.encoding, req.delim, req.policy, false, req.comment_prefix || null);
+    let itb = new rbql_csv.CSVRecordIterator(sb, null, req.encoding, req.delim, req.policy, false, req.comment_prefix || null);
+    let out = {a: null, b: null};
+    try {
+        return await guarded(async () => {
+            let pra = ita.get_all_records().then(r => ({records: r, warnings: ita.get_warnings(), error: null}), e => ({records: null, warnings: null, error: err_info(e)}));
+            let k = Math.min(req.first_a === undefined ? 1 : req.first_a, pa.length);
+            for (let i = 0; i < k; i++) sa.write(pa[i]);
+            await new Promise(r => setImmediate(r));
+            let prb = itb.get_all_records().then(r => ({records: r, warnings: itb.get_warnings(), error: null}), e => ({records: null, warnings: null, error: err_info(e)}));
+            for (let p of pb) sb.write(p);
+            sb.end();
+            out.b = await prb;
+            for (let i = k; i < pa.length; i++) sa.write(pa[i]);
+            sa.end();
+            out.a = await pra;
+            return out;
+        });
+    } catch (e) {
+        return {a: out.a, b: out.b, error: err_info(e)};
+    }
+}
+
 async function do_read_partitions(req) {
     // every job: one byte string, every listed mask (or all masks) - returns the whole-delivery
     // result and the masks whose result differs from it (with what they gave)
@@ -287,6 +315,7 @@ async function handle(req) {
         }
         case 'read_csv': return await do_read_csv(req);
         case 'read_partitions': return await do_read_partitions(req);
+        case 'read_two_streams': return await do_read_two_streams(req);
         case 'write_csv': return await do_write_csv(req);
         case 'split': return do_split(req);
         case 'quote': return do_quote(req);
